@@ -2287,6 +2287,18 @@ fn main() {
         if plan.drop.iter().any(|k| *k == key) {
             continue;
         }
+        // R31: an empty impl of a std marker trait (`impl FusedIterator for X {}`) has no code to verify and no verified code relies on it
+        if let syn::Item::Impl(im) = item {
+            if im.items.is_empty() {
+                if let Some((_, tp, _)) = &im.trait_ {
+                    let last = tp.segments.last().map(|s| s.ident.to_string()).unwrap_or_default();
+                    if ["FusedIterator", "Send", "Sync", "Eq", "Unpin", "UnwindSafe", "RefUnwindSafe"].contains(&last.as_str()) {
+                        cx.out.log.push(format!("{}:{} R31 empty marker-trait impl `{}` dropped", short(&plan.file), cx.line_of(br(item.span()).0), key));
+                        continue;
+                    }
+                }
+            }
+        }
         let (s, e) = br(item.span());
         cx.out.items.push(key.clone());
         if let Some(stub) = plan.item_stubs.get(&key) {
